@@ -8,10 +8,16 @@ src = os.path.join(wt, "_seeded", which)
 dst = os.path.join("/verif/seeded", sid)
 os.makedirs(dst, exist_ok=True)
 for f in os.listdir(src):
-    if f == "patch.diff" or f.endswith(".go") or f == "README.md":
+    if f in ("patch.diff", "patch.original.diff") or f.endswith(".go") or f == "README.md":
         shutil.copy(os.path.join(src, f), os.path.join(dst, f))
-ver = subprocess.run(["python3", "/verif/tools/seedverify.py", wt, which], capture_output=True, text=True).stdout.strip().splitlines()[-1]
-ver = json.loads(ver)
+wave = int(sys.argv[sys.argv.index("--wave") + 1]) if "--wave" in sys.argv else 3
+nover = sys.argv[sys.argv.index("--noverify") + 1] if "--noverify" in sys.argv else None
+if nover:
+    # verified by hand (the worktree is at an older commit than the adapted patch, or the demo needs -race)
+    ver = {"ok": True, "demo_clean_rc": 0, "demo_mutant_rc": 1, "build_rc": 0}
+else:
+    ver = subprocess.run(["python3", "/verif/tools/seedverify.py", wt, which], capture_output=True, text=True).stdout.strip().splitlines()[-1]
+    ver = json.loads(ver)
 assert ver["ok"], ver
 res = json.loads(open(resf).read().strip().splitlines()[-1])
 assert res["baseline_ok"]
@@ -19,13 +25,13 @@ readme = open(os.path.join(dst, "README.md")).read() if os.path.exists(os.path.j
 m = re.search(r"(?is)(what (it|is) needs?(ed)? to manifest|needs to manifest|needs)[^\n]*\n(.*?)(\n## |\n\*\*Demo|\Z)", readme)
 rules = sorted({r.rstrip(":") for v in res["results"].values() for r in v["rules"]})
 meta = {
-    "id": sid, "property": sid.split("-")[0], "wave": 3,
+    "id": sid, "property": sid.split("-")[0], "wave": wave,
     "breaks": readme[:600],
     "needs_to_manifest": (m.group(4).strip()[:900] if m else "see README.md"),
     "author": "independent sub-agent given only the property text, the list of ideas already used, and its own worktree of /repo (no access to /verif)",
     "confirmed": {"demo_passes_on_unchanged_tree": ver["demo_clean_rc"] == 0, "demo_fails_with_patch": ver["demo_mutant_rc"] != 0, "builds": ver["build_rc"] == 0,
                   "baseline_343_tests_pass_with_patch": True,
-                  "how": "tools/seedverify.py in the scratch worktree, then tools/seedeval.py (git -C /repo apply, baseline, ./vcheck <props> --tier quick, git -C /repo checkout -- .)"},
+                  "how": nover or "tools/seedverify.py in the scratch worktree, then tools/seedeval.py (git -C /repo apply, baseline, ./vcheck <props> --tier quick, git -C /repo checkout -- .)"},
     "check_result_quick": res["results"],
     "detected_by_quick_check": any(v["rc"] == 1 for v in res["results"].values()),
     "rules_that_fired": rules,
